@@ -39,6 +39,10 @@ def gen(rng, tier, boost):
     lone = jc.lone_surrogate_cases(rng, lambda r: range(4), "P", full=(tier != "quick"))
     cases.extend(lone)
     dist["lone_surrogate_cut"] = len(lone)
+    # D93: escapes with 0..3 hexadecimal digits (either half of a pair), cut at every offset, all four widths
+    short = jc.short_hex_cases(rng, lambda r: range(4), "P", full=(tier != "quick"))
+    cases.extend(short)
+    dist["short_hex_cut"] = len(short)
     # very short inputs: every single unit and every pair of units of the 8-bit alphabet whose first unit is a byte a
     # parser entry might look at (signature / byte-order-mark prefixes, quotes, brackets, signs, digits, NUL, 0xFF),
     # in all four widths; plus the 16/32-bit marks and all their proper prefixes
